@@ -242,6 +242,12 @@ def oracle(case, obs):
     if obs["help_switch"] != helpsw:
         return "help listener took over: %s, help switch among the option tokens: %s" % (obs["help_switch"], helpsw)
     after_path = before[:len(case["path"])] == case["path"]
+    # `--verbose` / `-v` takes an optional value: placed right before a positional it takes that token as its value
+    # and the rest is no longer the valid line the statement starts from (its parse may fail) - no demand on the page
+    swallowed = any(t in ("-v", "--verbose") and i + 1 < len(before) and not before[i + 1].startswith("-")
+                    for i, t in enumerate(before))
+    if swallowed:
+        return None
     if helpsw and after_path:
         if obs["status"] != 0 or obs["records"]:
             return "help switch: status %s, handler invoked %d time(s)" % (obs["status"], len(obs["records"]))
@@ -274,7 +280,9 @@ def bucket(case, obs):
 
 def shrink(case):
     t = case["tokens"]
-    for i in range(len(case["path"]), len(t)):
+    for i in range(len(t)):
+        if t[i] not in SWITCHES:
+            continue            # the line stays the valid line it was: only switches are dropped
         c = dict(case)
         c["tokens"] = t[:i] + t[i + 1:]
         yield c
